@@ -290,6 +290,20 @@ class Validator:
     def check(self, traces):
         """validate a list of traces (one TLC run, repeated after cutting a violating trace)"""
         ctx = self.ctx
+        # cut at the known pattern before TLC sees it (each cut costs a TLC start otherwise); samples are
+        # validated separately: the model, not this script, decides that they are violations
+        for tr in traces:
+            pre = set()
+            for k, l in enumerate(tr["events"]):
+                ev = json.loads(l)
+                if spends_replaced(self.sc, pre, ev):
+                    self.known_samples.append({"ops": tr["ops"], "events": tr["events"][:k + 1], "obs": tr.get("obs", 1)})
+                    tr["events"] = tr["events"][:k]
+                    tr["fail"] = None       # whatever happened later in this history happened to a pool already broken
+                    break
+                p = pool_ids(ev)
+                if p is not None:
+                    pre = p
         # panics / process deaths are violations by themselves
         for tr in traces:
             if tr["fail"]:
@@ -308,19 +322,6 @@ class Validator:
                 else:
                     sig = "C12:crash:" + re.sub(r"0x[0-9a-f]+|\d+", "N", w.split("\n")[0])[:80]
                 ctx.violation(sig, self.replay_obj(tr), "the pool crashed / did not return: " + w[:1500])
-        # cut at the known pattern before TLC sees it (each cut costs a TLC start otherwise); samples are
-        # validated separately: the model, not this script, decides that they are violations
-        for tr in traces:
-            pre = set()
-            for k, l in enumerate(tr["events"]):
-                ev = json.loads(l)
-                if spends_replaced(self.sc, pre, ev):
-                    self.known_samples.append({"ops": tr["ops"], "events": tr["events"][:k + 1], "obs": tr.get("obs", 1)})
-                    tr["events"] = tr["events"][:k]
-                    break
-                p = pool_ids(ev)
-                if p is not None:
-                    pre = p
         for rnd in range(6):
             path = os.path.join(ctx.scratch, "ev-%s-%d.ndjson" % (self.tag, rnd))
             index = []      # line number (1-based) -> (trace, event index)
